@@ -469,13 +469,28 @@ GoodEnd ==
 
 Terminated == GoodEnd /\ UNCHANGED vars
 
+(* one parameterless name per action, so that TLC's coverage table reports each of them *)
+AUserSubmit == \E n \in Names : UserSubmit(n)
+AJobWaitCall == \E n \in Names : JobWaitCall(n)
+ARmDone == \E n \in Names : RmDone(n)
+ARegister == \E i \in Insts : Register(i)
+AUserStart == \E i \in Insts : UserStart(i)
+ASubmitReturn == \E i \in Insts : SubmitReturn(i)
+ATaskStep == \E i \in Insts : TaskStep(i)
+AJobWaitReturn == \E i \in Insts : JobWaitReturn(i)
+ADepCheck == \E i \in Insts : \E o \in Insts \cup Tokens : DepCheck(i, o)
+ANotify == \E i \in Insts : \E o \in Insts \cup Tokens : Notify(i, o)
+AThreadDone == \E i \in Insts : \E kind \in {"lockin", "lockout", "lockout_abort", "procwait", "adoptwait", "donehandler"} :
+                  ThreadDone(kind, i)
+AProcLock == \E n \in Names : \E k \in 1..3 : ProcLock(n, k)
+AProcExit == \E n \in Names : \E k \in 1..3 : ProcExit(n, k)
+
 Next ==
-  \/ \E n \in Names : UserSubmit(n) \/ JobWaitCall(n) \/ RmDone(n)
-  \/ \E i \in Insts : Register(i) \/ UserStart(i) \/ SubmitReturn(i) \/ TaskStep(i) \/ JobWaitReturn(i)
-  \/ \E i \in Insts : \E o \in Insts \cup Tokens : DepCheck(i, o) \/ Notify(i, o)
-  \/ \E i \in Insts : \E kind \in {"lockin", "lockout", "lockout_abort", "procwait", "adoptwait", "donehandler"} :
-        ThreadDone(kind, i)
-  \/ \E n \in Names : \E k \in 1..3 : ProcLock(n, k) \/ ProcExit(n, k)
+  \/ AUserSubmit \/ AJobWaitCall \/ ARmDone
+  \/ ARegister \/ AUserStart \/ ASubmitReturn \/ ATaskStep \/ AJobWaitReturn
+  \/ ADepCheck \/ ANotify
+  \/ AThreadDone
+  \/ AProcLock \/ AProcExit
   \/ WaitCall \/ WaiterStep \/ WaitReturn
   \/ KillOp \/ Restart
   \/ Terminated
